@@ -188,5 +188,12 @@ def generate_jaqal_value(val):
         or isinstance(val, AnnotatedValue)
     ):
         return val.name
-    elif isinstance(val, float) or isinstance(val, int):
+    elif isinstance(val, float):
+        text = repr(val)
+        mantissa, exp, exponent = text.partition("e")
+        if exp and "." not in mantissa:
+            # Jaqal numbers need a decimal point: 1e-06 -> 1.0e-06
+            text = mantissa + ".0e" + exponent
+        return text
+    elif isinstance(val, int):
         return str(val)
